@@ -475,7 +475,10 @@ def write_evidence(ctx: Ctx, violations: int):
     tmp = os.path.join(EVIDENCE, f".{ctx.prop}.json.tmp{os.getpid()}")
     with open(tmp, "w") as f:
         json.dump(ev, f, indent=1, default=str)
-    os.replace(tmp, os.path.join(EVIDENCE, f"{ctx.prop}.json"))
+    # evidence/Cxx.json describes runs against /repo itself; a run against another tree (ARMI_REPO=<scratch copy>, used by
+    # tools/seedcheck.py and the builders' mutation tests) leaves it alone and writes evidence/.scratch-Cxx.json instead
+    final = f"{ctx.prop}.json" if os.path.realpath(REPO) == os.path.realpath("/repo") else f".scratch-{ctx.prop}.json"
+    os.replace(tmp, os.path.join(EVIDENCE, final))
 
 
 def write_replay(ctx: Ctx, payload):
